@@ -9,6 +9,7 @@ import (
 	"fmt"
 	"sort"
 	"strings"
+	"sync"
 	"text/template"
 
 	"wa-lang.org/wa/internal/backends/compiler_wat/wir"
@@ -32,7 +33,16 @@ func New() *Compiler {
 	return new(Compiler)
 }
 
+// compileMu serializes Compile: the wir package keeps the module being
+// compiled in a package-level variable (wir.SetCurrentModule), which the
+// value/type constructors read during the whole compilation, so two
+// overlapping compilations would write into each other's module.
+var compileMu sync.Mutex
+
 func (p *Compiler) Compile(prog *loader.Program) (output string, err error) {
+	compileMu.Lock()
+	defer compileMu.Unlock()
+
 	p.prog = prog
 
 	// 不同平台 stack 大小不同
